@@ -86,7 +86,7 @@ def derive_base(repo):
         raise FlagError("Get_results: unrecognised return expression `%s` (line %d)" % (_src(r), ret.lineno))
     fl["get_results_line"] = ret.lineno
     gsrc = _src(gr)
-    disk_branch = any(isinstance(n, ast.If) and "isinstance(entry, str)" in _src(n.test) for n in ast.walk(gr))
+    disk_branch = any(isinstance(n, ast.If) and re.search(r"isinstance\(\w+, str\)", _src(n.test)) for n in ast.walk(gr))
     if not disk_branch:
         raise FlagError("Get_results: no `isinstance(entry, str)` dispatch on the pinned path")
     # --- Save_Iter: folder pinned at write time
@@ -355,7 +355,8 @@ REPLAY_CASE = REPLAY_HEAD + r'''
 c = res["cases"][0]
 kinds = %(kinds)r
 print("operation list:", json.dumps(req["cases"][0]["ops"]))
-hit = [f for f in c["fails"] if f["kind"] in kinds]
+after = %(after)r
+hit = [f for f in c["fails"] if f["kind"] in kinds and (after is None or f["detail"].get("after") == after)]
 if c["error"] and "crash" in kinds:
     print("the implementation raised:", c["error"]["error"], "at op", c["error"]["op"]); sys.exit(1)
 for f in hit:
@@ -374,7 +375,7 @@ sys.exit(1 if v else 0)
 '''
 
 
-def shrink(ctx, case, kinds, script):
+def shrink(ctx, case, kinds, script, after=None):
     """drop ops while the same predicate failure persists (greedy, bounded)"""
     def fails(c):
         rc, out, err = ctx.impl_python(script, input=json.dumps({"root": os.path.join(ctx.build, "shrink"), "cases": [c], "probes": []}), timeout=120)
@@ -383,10 +384,10 @@ def shrink(ctx, case, kinds, script):
         r = json.loads(out)["cases"][0]
         if "crash" in kinds and r["error"]:
             return True
-        return any(f["kind"] in kinds for f in r["fails"])
+        return any(f["kind"] in kinds and (after is None or f["detail"].get("after") == after) for f in r["fails"])
     cur = dict(case)
     ops = list(case["ops"])
-    budget = 40
+    budget = 14
     i = len(ops) - 1
     while i >= 0 and budget > 0:
         trial = ops[:i] + ops[i + 1:]
@@ -528,19 +529,31 @@ def run(ctx):
                 what = "%s: Get_results(%d) changed the simulation state" % (c["sim"], d["iter"])
                 exp = "Get_results leaves live fields, mesh, store untouched"
                 ks = [k]
+            elif k == "save-crash" and "Meshes" in str(d.get("error")) and "cannot be found" in str(d.get("error")):
+                key = "mesh-redirected-by-folder-change-after-Save"
+                what = "a second Save() into another folder (or a folder change after Save) looks for the meshes of the history under the NEW folder: %s" % d.get("error")
+                exp = "Save succeeds; meshes of the history stay reachable whatever simu.folder becomes"
+                ks = [k]
             else:
                 key = "%s:%s" % (k, cls)
                 what = "%s: %s at op %d: %s" % (c["sim"], k, f["step"], json.dumps(d)[:200])
                 exp = "Load_Simu(Save(s)) observes like s"
                 ks = [k]
             if key not in seen_keys:
-                seen_keys[key] = (c, ks, what, exp)
+                seen_keys[key] = (c, ks, what, exp, d.get("after") if k == "store-changed" else None)
+        if r["error"] and r["error"].get("abandoned"):
+            # the user's own in-place write reached the LIVE field (through the dict returned by Set_Iter)
+            # and a later Solve started from that garbage: not a statement of C15; case dropped
+            ctx.cov["cases_abandoned_after_user_write_into_live"] = ctx.cov.get("cases_abandoned_after_user_write_into_live", 0) + 1
+            continue
         if r["error"]:
             e = r["error"]
             cls = c["sim"].split("_")[0]
             key = "crash:%s:%s:%s" % (e["op"][0], cls, re.sub(r"[^A-Za-z]+", "-", e["error"])[:40])
+            if "Meshes" in e["error"] and "cannot be found" in e["error"]:
+                key = "mesh-redirected-by-folder-change-after-Save"
             if key not in seen_keys:
-                seen_keys[key] = (c, ["crash"], "%s: op %s raised %s" % (c["sim"], e["op"], e["error"][:160]), "the operation list is valid and must not raise")
+                seen_keys[key] = (c, ["crash"], "%s: op %s raised %s" % (c["sim"], e["op"], e["error"][:160]), "the operation list is valid and must not raise", None)
             continue
         # ---- model vs implementation on the final observation
         m = model.get(c["id"])
@@ -588,12 +601,12 @@ def run(ctx):
     if mism:
         c, d = mism[0]
         ctx.violation("corr:model-vs-impl:%s" % c["sim"].split("_")[0], "model and implementation disagree on the final observation of %s: %s" % (c["sim"], "; ".join(d[:3])),
-                      {"case": c, "differences": d[:10], "model": model.get(c["id"]), "replay_py": REPLAY_CASE % dict(verif=common.VERIF, req={"cases": [c], "probes": []}, kinds=["store-changed", "restore-fields", "restore-mesh", "result-value", "get-results-value", "get-results-impure", "save-load", "crash"], expected="the property predicates hold on this op list (the disagreement is then a modelling gap)")},
+                      {"case": c, "differences": d[:10], "model": model.get(c["id"]), "replay_py": REPLAY_CASE % dict(verif=common.VERIF, req={"cases": [c], "probes": []}, kinds=["store-changed", "restore-fields", "restore-mesh", "result-value", "get-results-value", "get-results-impure", "save-load", "crash"], after=None, expected="the property predicates hold on this op list (the disagreement is then a modelling gap)")},
                       found_input=False)
     ctx.obligation("corr:property-predicates", not seen_keys, "; ".join(sorted(seen_keys))[:600])
-    for key, (c, ks, what, exp) in sorted(seen_keys.items()):
-        small = shrink(ctx, c, ks, script) if len(seen_keys) <= 12 else c
-        ctx.violation(key, what, {"case": small, "replay_py": REPLAY_CASE % dict(verif=common.VERIF, req={"cases": [small], "probes": []}, kinds=ks, expected=exp)}, found_input=True)
+    for key, (c, ks, what, exp, aft) in sorted(seen_keys.items()):
+        small = shrink(ctx, c, ks, script, aft) if len(seen_keys) <= 5 else c
+        ctx.violation(key, what, {"case": small, "replay_py": REPLAY_CASE % dict(verif=common.VERIF, req={"cases": [small], "probes": []}, kinds=ks, expected=exp, after=aft)}, found_input=True)
     # ---- 4. probes
     P = impl["probes"]
     ctx.cov["probes"] = P
